@@ -4,6 +4,7 @@ from __future__ import annotations
 import ast
 
 from vlib.core import AnalysisError, Report
+from vlib.norm import Expander
 from vlib.schema import dict_keys, returned_dicts, subscripted_keys, typeddict_keys
 from vlib.srcindex import SourceIndex, attr_chain, const_str, mangle, unparse, walk_no_nested
 
@@ -30,46 +31,41 @@ def run(rep: Report, tier: str) -> None:
 	if dumps is None or loads is None:
 		raise AnalysisError('Serialization.__dumps/__loads vanished')
 
+	# alias-expanded copies of the two functions (temporaries such as `tree_map = entry_tree['source_map']` are substituted)
+	dumps_x = Expander(dumps).expand(dumps.node)
+	loads_x = Expander(loads).expand(loads.node)
+
 	r = rep.rule('C15/field-symmetry', 'keys written per branch by __dumps == keys read per branch by __loads; discriminators and source_map order agree', floor=6)
-	wd = returned_dicts(dumps.node)
+	wd = returned_dicts(dumps_x)
 	shapes = {}
 	for d in wd:
 		ks = set(dict_keys(d))
 		kind = 'tree' if 'children' in ks else ('token' if 'value' in ks else '?')
 		shapes[kind] = (ks, d)
 	r.check(set(shapes) == {'tree', 'token'}, 'writer-shapes', dumps.where, f'__dumps writes dict shapes {sorted(shapes)}; expected a tree shape (children) and a token shape (value)')
-	returns_none = any(isinstance(n, ast.Return) and isinstance(n.value, ast.Constant) and n.value.value is None for n in ast.walk(dumps.node))
+	returns_none = any(isinstance(n, ast.Return) and isinstance(n.value, ast.Constant) and n.value.value is None for n in ast.walk(dumps_x))
 	r.check(returns_none, 'writer-empty', dumps.where, '__dumps no longer encodes an empty slot as None')
-	# reader branches
-	top = next((n for n in loads.node.body if isinstance(n, ast.If)), None)
-	if top is None:
-		raise AnalysisError('__loads no longer branches on the entry shape')
+	# reader branches: every `if '<key>' in entry` (at any nesting, elif or sequential guard form)
 	def disc(test) -> str | None:
 		for n in ast.walk(test):
 			if isinstance(n, ast.Compare) and isinstance(n.ops[0], ast.In) and const_str(n.left) is not None:
 				return const_str(n.left)
 		return None
 	rb = {}
-	cur = top
-	while isinstance(cur, ast.If):
-		rb[disc(cur.test)] = cur.body
-		nxt = cur.orelse
-		if len(nxt) == 1 and isinstance(nxt[0], ast.If):
-			cur = nxt[0]
-		else:
-			rb['<else>'] = nxt
-			break
-	r.check('children' in rb and 'value' in rb, 'reader-discriminators', (ENTRY, top.lineno), f'__loads distinguishes by {sorted(k for k in rb if k)}; the writer marks trees with `children` and tokens with `value`')
-	else_none = any(isinstance(n, ast.Return) and isinstance(n.value, ast.Constant) and n.value.value is None for s in rb.get('<else>', []) for n in ast.walk(s))
-	r.check(else_none, 'reader-empty', (ENTRY, top.lineno), '__loads no longer restores any other entry as None (empty slot)')
+	for n in ast.walk(loads_x):
+		if isinstance(n, ast.If) and disc(n.test) is not None and disc(n.test) not in rb:
+			rb[disc(n.test)] = n.body
+	if not rb:
+		raise AnalysisError('__loads no longer branches on the entry shape')
+	first_line = min(b[0].lineno for b in rb.values())
+	r.check('children' in rb and 'value' in rb, 'reader-discriminators', (ENTRY, first_line), f'__loads distinguishes by {sorted(k for k in rb if k)}; the writer marks trees with `children` and tokens with `value`')
+	else_none = any(isinstance(n, ast.Return) and isinstance(n.value, ast.Constant) and n.value.value is None for n in ast.walk(loads_x))
+	r.check(else_none, 'reader-empty', (ENTRY, first_line), '__loads no longer restores any other entry as None (empty slot)')
 	for kind, dkey in (('tree', 'children'), ('token', 'value')):
 		if kind not in shapes or dkey not in rb:
 			continue
 		body = ast.Module(body=rb[dkey], type_ignores=[])
-		names = {n.targets[0].id for n in ast.walk(body) if isinstance(n, ast.Assign) and len(n.targets) == 1 and isinstance(n.targets[0], ast.Name) and isinstance(n.value, ast.Call) and attr_chain(n.value.func) == 'cast'}
-		read = set()
-		for nm in names | {'entry'}:
-			read |= subscripted_keys(body, nm)
+		read = subscripted_keys(body, 'entry') | subscripted_keys(body, 'entry_tree') | subscripted_keys(body, 'entry_token')
 		w = shapes[kind][0]
 		r.check(w == read, f'{kind}:written==read', (ENTRY, rb[dkey][0].lineno), f'{kind}: __dumps writes {sorted(w)} but __loads reads {sorted(read)}')
 		# source_map positions: written (begin0, begin1, end0, end1) -> restored line, column, end_line, end_column
@@ -80,7 +76,7 @@ def run(rep: Report, tier: str) -> None:
 				order.append((n.targets[0].attr, i))
 		want = {'line': 0, 'column': 1, 'end_line': 2, 'end_column': 3}
 		r.check(dict(order) == want, f'{kind}:source_map-order', (ENTRY, rb[dkey][0].lineno), f'{kind}: positions restored as {dict(order)}; written order is begin line, begin column, end line, end column = {want}')
-	sm = next((n for n in ast.walk(dumps.node) if isinstance(n, ast.Assign) and unparse(n.targets[0]) == 'source_map'), None)
+	sm = next((n for n in ast.walk(dumps_x) if isinstance(n, (ast.Assign, ast.AnnAssign)) and unparse(n.targets[0] if isinstance(n, ast.Assign) else n.target) == 'source_map'), None)
 	if sm is None or not isinstance(sm.value, ast.Tuple):
 		r.undecided('writer:source_map-order', dumps.where, 'source_map tuple not found in __dumps')
 	else:
@@ -98,7 +94,7 @@ def run(rep: Report, tier: str) -> None:
 	reads_meta: set[str] = set()
 	for name, defs in view.methods.items():
 		for f in defs:
-			for n in ast.walk(f.node):
+			for n in ast.walk(Expander(f).expand(f.node)):
 				if isinstance(n, ast.Attribute) and isinstance(n.value, ast.Attribute) and isinstance(n.value.value, ast.Name) and n.value.value.id == 'self' and mangle('EntryOfLark', n.value.attr) == entry_attr:
 					reads_entry.add(n.attr)
 				if isinstance(n, ast.Attribute) and isinstance(n.value, ast.Attribute) and n.value.attr == 'meta' and isinstance(n.value.value, ast.Attribute) and mangle('EntryOfLark', n.value.value.attr) == entry_attr:
@@ -115,7 +111,7 @@ def run(rep: Report, tier: str) -> None:
 	except Exception as e:
 		raise AnalysisError(f'cannot read lark constructor signatures: {e}')
 	restored_tree, restored_tok, restored_meta = set(), set(), set()
-	for n in ast.walk(loads.node):
+	for n in ast.walk(loads_x):
 		if isinstance(n, ast.Call) and attr_chain(n.func) == 'lark.Tree':
 			restored_tree |= set(tree_params[:len(n.args)]) | {k.arg for k in n.keywords}
 		if isinstance(n, ast.Call) and attr_chain(n.func) == 'lark.Token':
@@ -139,7 +135,7 @@ def run(rep: Report, tier: str) -> None:
 		rv.check(a in restored_meta, f'Meta.{a}', view.where, f'EntryOfLark reads meta.{a} but __loads does not restore it (restored: {sorted(restored_meta)})')
 	# provenance: every restored position-related field is a function of the stored `source_map` (or a constant) only
 	rp = rep.rule('C15/position-provenance', 'each position-related field restored by __loads (line, column, end_line, end_column, meta.empty) is computed from the stored source_map or is a constant — never from other parts of the entry', floor=9)
-	for n in ast.walk(loads.node):
+	for n in ast.walk(loads_x):
 		if isinstance(n, ast.Assign) and isinstance(n.targets[0], ast.Attribute) and isinstance(n.targets[0].value, ast.Name) and n.targets[0].value.id in ('meta', 'token') and n.targets[0].attr in ('line', 'column', 'end_line', 'end_column', 'empty', 'start_pos', 'end_pos'):
 			v = n.value
 			names = {x.id for x in ast.walk(v) if isinstance(x, ast.Name)}
